@@ -296,4 +296,223 @@ theorem unquoteReplace_quote (safe s : Str) (h : '%' ∉ s) : unquoteReplace (qu
   rw [this, items_eq_its (Nat.le_succ _)]
   exact decode_utf8Enc renderR (fun _ _ => rfl) s
 
+/-! ### the encoder inverts the decoder -/
+
+theorem uint8_eq_of_toNat {b : UInt8} {n : Nat} (h : b.toNat = n) : UInt8.ofNat n = b := by
+  rw [← h, uint8_ofNat_toNat]
+
+theorem encodeChar_of_nat {v : Nat} (hvalid : v.isValidChar) :
+    String.utf8EncodeChar (Char.ofNat v) =
+      if v ≤ 0x7f then [UInt8.ofNat v]
+      else if v ≤ 0x7ff then [UInt8.ofNat (v / 64 % 0x20 + 0xc0), UInt8.ofNat (v % 0x40 + 0x80)]
+      else if v ≤ 0xffff then
+        [UInt8.ofNat (v / 4096 % 0x10 + 0xe0), UInt8.ofNat (v / 64 % 0x40 + 0x80), UInt8.ofNat (v % 0x40 + 0x80)]
+      else [UInt8.ofNat (v / 262144 % 0x08 + 0xf0), UInt8.ofNat (v / 4096 % 0x40 + 0x80),
+        UInt8.ofNat (v / 64 % 0x40 + 0x80), UInt8.ofNat (v % 0x40 + 0x80)] := by
+  unfold String.utf8EncodeChar
+  simp only [Char.toNat_val, char_toNat_ofNat_valid hvalid]
+
+theorem enc2 (b0 b1 : UInt8) (h0 : 0xC2 ≤ b0.toNat ∧ b0.toNat ≤ 0xDF) (h1 : 0x80 ≤ b1.toNat ∧ b1.toNat ≤ 0xBF) :
+    String.utf8EncodeChar (Char.ofNat (codePoint b0 [b1])) = [b0, b1] := by
+  have hcp : codePoint b0 [b1] = (b0.toNat - 0xC0) * 64 + (b1.toNat - 0x80) := by
+    simp [codePoint, List.foldl]
+  rw [hcp]
+  generalize hv : (b0.toNat - 0xC0) * 64 + (b1.toNat - 0x80) = v
+  have hvalid : v.isValidChar := Or.inl (by omega)
+  rw [encodeChar_of_nat hvalid]
+  have e1 : ¬ v ≤ 0x7f := by omega
+  have e2 : v ≤ 0x7ff := by omega
+  rw [if_neg e1, if_pos e2]
+  have a0 : UInt8.ofNat (v / 64 % 0x20 + 0xc0) = b0 := uint8_eq_of_toNat (by omega)
+  have a1 : UInt8.ofNat (v % 0x40 + 0x80) = b1 := uint8_eq_of_toNat (by omega)
+  rw [a0, a1]
+
+theorem enc3 (b0 b1 b2 : UInt8) (h0 : 0xE0 ≤ b0.toNat ∧ b0.toNat ≤ 0xEF)
+    (h1 : 0x80 ≤ b1.toNat ∧ b1.toNat ≤ 0xBF) (h2 : 0x80 ≤ b2.toNat ∧ b2.toNat ≤ 0xBF)
+    (he0 : b0.toNat = 0xE0 → 0xA0 ≤ b1.toNat) (hed : b0.toNat = 0xED → b1.toNat ≤ 0x9F) :
+    String.utf8EncodeChar (Char.ofNat (codePoint b0 [b1, b2])) = [b0, b1, b2] := by
+  have hcp : codePoint b0 [b1, b2] = ((b0.toNat - 0xE0) * 64 + (b1.toNat - 0x80)) * 64 + (b2.toNat - 0x80) := by
+    simp [codePoint, List.foldl]
+  rw [hcp]
+  generalize hv : ((b0.toNat - 0xE0) * 64 + (b1.toNat - 0x80)) * 64 + (b2.toNat - 0x80) = v
+  have hvalid : v.isValidChar := by
+    by_cases e : b0.toNat ≤ 0xEC
+    · exact Or.inl (by omega)
+    · by_cases e' : b0.toNat = 0xED
+      · have := hed e'; exact Or.inl (by omega)
+      · exact Or.inr ⟨by omega, by omega⟩
+  have hlow : 0x800 ≤ v := by
+    by_cases e : b0.toNat = 0xE0
+    · have := he0 e; omega
+    · omega
+  rw [encodeChar_of_nat hvalid]
+  have e1 : ¬ v ≤ 0x7f := by omega
+  have e2 : ¬ v ≤ 0x7ff := by omega
+  have e3 : v ≤ 0xffff := by omega
+  rw [if_neg e1, if_neg e2, if_pos e3]
+  have a0 : UInt8.ofNat (v / 4096 % 0x10 + 0xe0) = b0 := uint8_eq_of_toNat (by omega)
+  have a1 : UInt8.ofNat (v / 64 % 0x40 + 0x80) = b1 := uint8_eq_of_toNat (by omega)
+  have a2 : UInt8.ofNat (v % 0x40 + 0x80) = b2 := uint8_eq_of_toNat (by omega)
+  rw [a0, a1, a2]
+
+theorem enc4 (b0 b1 b2 b3 : UInt8) (h0 : 0xF0 ≤ b0.toNat ∧ b0.toNat ≤ 0xF4)
+    (h1 : 0x80 ≤ b1.toNat ∧ b1.toNat ≤ 0xBF) (h2 : 0x80 ≤ b2.toNat ∧ b2.toNat ≤ 0xBF)
+    (h3 : 0x80 ≤ b3.toNat ∧ b3.toNat ≤ 0xBF)
+    (he0 : b0.toNat = 0xF0 → 0x90 ≤ b1.toNat) (he4 : b0.toNat = 0xF4 → b1.toNat ≤ 0x8F) :
+    String.utf8EncodeChar (Char.ofNat (codePoint b0 [b1, b2, b3])) = [b0, b1, b2, b3] := by
+  have hcp : codePoint b0 [b1, b2, b3] =
+      (((b0.toNat - 0xF0) * 64 + (b1.toNat - 0x80)) * 64 + (b2.toNat - 0x80)) * 64 + (b3.toNat - 0x80) := by
+    simp [codePoint, List.foldl]
+  rw [hcp]
+  generalize hv : (((b0.toNat - 0xF0) * 64 + (b1.toNat - 0x80)) * 64 + (b2.toNat - 0x80)) * 64 + (b3.toNat - 0x80) = v
+  have hhigh : v < 0x110000 := by
+    by_cases e : b0.toNat = 0xF4
+    · have := he4 e; omega
+    · omega
+  have hlow : 0x10000 ≤ v := by
+    by_cases e : b0.toNat = 0xF0
+    · have := he0 e; omega
+    · omega
+  have hvalid : v.isValidChar := Or.inr ⟨by omega, hhigh⟩
+  rw [encodeChar_of_nat hvalid]
+  have e1 : ¬ v ≤ 0x7f := by omega
+  have e2 : ¬ v ≤ 0x7ff := by omega
+  have e3 : ¬ v ≤ 0xffff := by omega
+  rw [if_neg e1, if_neg e2, if_neg e3]
+  have a0 : UInt8.ofNat (v / 262144 % 0x08 + 0xf0) = b0 := uint8_eq_of_toNat (by omega)
+  have a1 : UInt8.ofNat (v / 4096 % 0x40 + 0x80) = b1 := uint8_eq_of_toNat (by omega)
+  have a2 : UInt8.ofNat (v / 64 % 0x40 + 0x80) = b2 := uint8_eq_of_toNat (by omega)
+  have a3 : UInt8.ofNat (v % 0x40 + 0x80) = b3 := uint8_eq_of_toNat (by omega)
+  rw [a0, a1, a2, a3]
+
+/-- the encoder inverts the decoder: a character item's raw bytes are the UTF-8 encoding of its
+character -/
+theorem encode_firstItem {b0 : UInt8} {t : Bytes} {c : Char} {raw : Bytes}
+    (h : firstItem b0 t = .chr c raw) : String.utf8EncodeChar c = raw := by
+  unfold firstItem at h
+  by_cases h0 : b0 < 0x80
+  · rw [if_pos h0] at h
+    simp only [Item.chr.injEq] at h
+    obtain ⟨rfl, rfl⟩ := h
+    have hlt : b0.toNat < 128 := by rw [UInt8.lt_iff_toNat_lt] at h0; simpa using h0
+    rw [utf8EncodeChar_ascii (by rw [char_toNat_ofNat_lt (by omega)]; exact hlt),
+      char_toNat_ofNat_lt (by omega), uint8_ofNat_toNat]
+  · rw [if_neg h0] at h
+    cases hl : leadInfo b0 with
+    | none => rw [hl] at h; cases h
+    | some v =>
+      obtain ⟨n, lo, hi⟩ := v
+      rw [hl] at h
+      simp only at h
+      split at h
+      · rename_i hlen
+        simp only [Item.chr.injEq] at h
+        obtain ⟨rfl, rfl⟩ := h
+        obtain ⟨g1, g2⟩ := takeCont_full n lo hi t hlen
+        generalize takeCont n lo hi t = cs at hlen g1 g2
+        rw [leadInfo_nat] at hl
+        split at hl
+        · rename_i hr
+          cases hl
+          cases cs with
+          | nil => simp at hlen
+          | cons b1 r =>
+            cases r with
+            | cons _ _ => simp at hlen
+            | nil =>
+              have := g1 b1 rfl
+              exact enc2 b0 b1 hr (by simpa using this)
+        · rename_i hr
+          split at hl
+          · rename_i e0
+            cases hl
+            cases cs with
+            | nil => simp at hlen
+            | cons b1 r =>
+              cases r with
+              | nil => simp at hlen
+              | cons b2 r =>
+                cases r with
+                | cons _ _ => simp at hlen
+                | nil =>
+                  have h1 := g1 b1 rfl
+                  have h2 := g2 b2 (by simp)
+                  simp at h1
+                  exact enc3 b0 b1 b2 (by omega) (by omega) h2 (by intro; omega) (by intro; omega)
+          · rename_i e0
+            split at hl
+            · rename_i ed
+              cases hl
+              cases cs with
+              | nil => simp at hlen
+              | cons b1 r =>
+                cases r with
+                | nil => simp at hlen
+                | cons b2 r =>
+                  cases r with
+                  | cons _ _ => simp at hlen
+                  | nil =>
+                    have h1 := g1 b1 rfl
+                    have h2 := g2 b2 (by simp)
+                    simp at h1
+                    exact enc3 b0 b1 b2 (by omega) (by omega) h2 (by intro; omega) (by intro; omega)
+            · rename_i ed
+              split at hl
+              · rename_i hr3
+                cases hl
+                cases cs with
+                | nil => simp at hlen
+                | cons b1 r =>
+                  cases r with
+                  | nil => simp at hlen
+                  | cons b2 r =>
+                    cases r with
+                    | cons _ _ => simp at hlen
+                    | nil =>
+                      have h1 := g1 b1 rfl
+                      have h2 := g2 b2 (by simp)
+                      simp at h1
+                      exact enc3 b0 b1 b2 (by omega) (by omega) h2 (by intro; omega) (by intro; omega)
+              · rename_i hr3
+                have four : ∀ (lo hi : UInt8), (lo.toNat = 0x90 ∨ lo.toNat = 0x80) → (hi.toNat = 0xBF ∨ hi.toNat = 0x8F) →
+                    (b0.toNat = 0xF0 → lo.toNat = 0x90) → (b0.toNat = 0xF4 → hi.toNat = 0x8F) →
+                    0xF0 ≤ b0.toNat ∧ b0.toNat ≤ 0xF4 → cs.length = 3 →
+                    (∀ b, cs.head? = some b → lo.toNat ≤ b.toNat ∧ b.toNat ≤ hi.toNat) →
+                    String.utf8EncodeChar (Char.ofNat (codePoint b0 cs)) = b0 :: cs := by
+                  intro lo hi hlo hhi f0 f4 hr hlen g1
+                  cases cs with
+                  | nil => simp at hlen
+                  | cons b1 r =>
+                    cases r with
+                    | nil => simp at hlen
+                    | cons b2 r =>
+                      cases r with
+                      | nil => simp at hlen
+                      | cons b3 r =>
+                        cases r with
+                        | cons _ _ => simp at hlen
+                        | nil =>
+                          have h1 := g1 b1 rfl
+                          have h2 := g2 b2 (by simp)
+                          have h3 := g2 b3 (by simp)
+                          exact enc4 b0 b1 b2 b3 hr (by omega) h2 h3 (by intro e; have := f0 e; omega)
+                            (by intro e; have := f4 e; omega)
+                split at hl
+                · rename_i e
+                  cases hl
+                  exact four _ _ (Or.inl rfl) (Or.inl rfl) (fun _ => rfl) (fun h => by omega) (by omega) hlen g1
+                · rename_i e
+                  split at hl
+                  · rename_i e4
+                    cases hl
+                    exact four _ _ (Or.inr rfl) (Or.inr rfl) (fun h => by omega) (fun _ => rfl) (by omega) hlen g1
+                  · rename_i e4
+                    split at hl
+                    · rename_i hr4
+                      cases hl
+                      exact four _ _ (Or.inr rfl) (Or.inl rfl) (fun h => by omega) (fun h => by omega) (by omega) hlen g1
+                    · cases hl
+      · cases h
+
+
 end Wz.Url
